@@ -183,6 +183,26 @@ def opIs (c : Circuit) (nodes : Array CNode) (bind : Nat → Option Bind) (rec :
 def outIs (o : Option SigRef) (s : Sig) : Bool :=
   match o with | some (.sig t) => t == s | _ => false
 
+/-- the value of a node all of whose leaves are integer constants (what the compiler may fold) -/
+def constVal (nodes : Array CNode) : Nat → Nat → Option I32
+  | 0, _ => none
+  | f + 1, n =>
+    let av : Arg → Option I32 := fun a =>
+      match a with
+      | .int k => some k
+      | .node m => if m < n then constVal nodes f m else none
+    match nodes[n]? with
+    | some (.const _ v) => some v
+    | some (.arith op a b _) => (av a).bind (fun x => (av b).map (fun y => alu op x y))
+    | some (.cmp op a b _) => (av a).bind (fun x => (av b).map (fun y => boolI (Facto.cmp op x y)))
+    | some (.land a b _) => (av a).bind (fun x => (av b).map (fun y => boolI (x != 0 && y != 0)))
+    | some (.lor a b _) => (av a).bind (fun x => (av b).map (fun y => boolI (x != 0 || y != 0)))
+    | some (.lnot a _) => (av a).map (fun x => boolI (x == 0))
+    | some (.proj a _) => av a
+    | some (.gate op a b v _) =>
+      (av a).bind (fun x => (av b).bind (fun y => (av v).map (fun w => if Facto.cmp op x y then w else 0)))
+    | _ => none
+
 /-- the single output `o` of decider `e` carries the value of `v` on `s` whenever it fires -/
 def outValIs (c : Circuit) (bind : Nat → Option Bind) (e : Nat) (o : DOut) (s : Sig) (v : Arg) : Bool :=
   match v with
@@ -465,10 +485,7 @@ def checkNode (c : Circuit) (nodes : Array CNode) (bind : Nat → Option Bind) (
   match nodes[n]?, bind n with
   | none, _ => true
   | some _, none => true                       -- unbound nodes claim nothing
-  | some nd, some (.konst k) =>
-    (match nd with
-     | .const _ v => v == k
-     | _ => false)
+  | some _, some (.konst k) => constVal nodes (n + 1) n == some k
   | some nd, some (.ent e s) => checkEnt c nodes bind n nd e s
   | some nd, some (.sum es s) => checkSum bind n nd es s
   | some nd, some (.many es) => checkMany c nodes bind n nd es
@@ -554,7 +571,7 @@ def proposeArg (c : Circuit) (nodes : Array CNode) (i : Nat) (o : Operand) (a : 
   match a, o with
   | .int k, .const k' => if k == k' then some [] else none
   | .int _, .ref (.sig _) _ => some []
-  | .node m, .const k => (match nodes[m]? with | some (.const _ v) => if v == k then some [(m, .konst k)] else none | _ => none)
+  | .node m, .const k => if constVal nodes (m + 1) m == some k then some [(m, .konst k)] else none
   | .node m, .ref (.sig t) sel =>
     (match nodes[m]? with
      | some (.select b _) => some [(b, .many (c.loud i sel))]   -- the selection itself is bound in the forward pass
